@@ -2,4 +2,1155 @@
 
 package main
 
-func genEngineCases(seed int64, n int) []Case { return nil }
+import (
+	"fmt"
+	"go/ast"
+	"go/parser"
+	"go/scanner"
+	"go/token"
+	"math/rand"
+	"sort"
+	"strings"
+)
+
+// ---------------------------------------------------------------------------
+// Random Go text
+
+type gen struct {
+	r    *rand.Rand
+	mode string
+}
+
+func (g *gen) pick(xs ...string) string { return xs[g.r.Intn(len(xs))] }
+func (g *gen) chance(p float64) bool  { return g.r.Float64() < p }
+
+var (
+	varNames  = []string{"a", "b", "c", "d", "n", "s", "v", "w", "err", "ctx"}
+	funcNames = []string{"foo", "bar", "baz", "qux", "f", "g", "h"}
+	pkgNames  = []string{"fmt", "strings", "os", "pkg"}
+	selNames  = []string{"Println", "Sprintf", "Do", "Get", "Name", "Len", "Close"}
+	typeNames = []string{"int", "string", "T", "error", "bool", "byte"}
+	binOps    = []string{"+", "-", "*", "/", "==", "!=", "<", ">", "&&", "||", "%", "<<", "&"}
+)
+
+func (g *gen) ident() string { return g.pick(varNames...) }
+
+func (g *gen) typ(depth int) string {
+	if depth <= 0 {
+		return g.pick(typeNames...)
+	}
+	switch g.r.Intn(12) {
+	case 0:
+		return "*" + g.typ(depth-1)
+	case 1:
+		return "[]" + g.typ(depth-1)
+	case 2:
+		return "map[" + g.pick("string", "int") + "]" + g.typ(depth-1)
+	case 3:
+		return g.pick("chan ", "<-chan ", "chan<- ") + g.typ(depth-1)
+	case 4:
+		return "func(" + g.typ(depth-1) + ") " + g.typ(depth-1)
+	case 5:
+		return g.pick(pkgNames...) + "." + g.pick("Type", "Reader", "Context")
+	case 6:
+		return "[4]" + g.typ(depth-1)
+	case 7:
+		return "struct{ X " + g.typ(depth-1) + " }"
+	case 8:
+		return "interface{ M() " + g.typ(depth-1) + " }"
+	case 9:
+		return "G[" + g.typ(depth-1) + "]"
+	default:
+		return g.pick(typeNames...)
+	}
+}
+
+func (g *gen) lit() string {
+	switch g.r.Intn(6) {
+	case 0:
+		return fmt.Sprint(g.r.Intn(10))
+	case 1:
+		return fmt.Sprintf("%q", g.pick("x", "hello", "a b", "%d", ""))
+	case 2:
+		return g.pick("1.5", "0x1f", "'c'", "`raw`", "1e3")
+	case 3:
+		return g.pick("true", "false", "nil")
+	default:
+		return fmt.Sprint(g.r.Intn(100))
+	}
+}
+
+func (g *gen) args(depth, max int) string {
+	n := g.r.Intn(max + 1)
+	var xs []string
+	for i := 0; i < n; i++ {
+		xs = append(xs, g.expr(depth))
+	}
+	s := strings.Join(xs, ", ")
+	if n > 0 && g.chance(0.08) {
+		s += "..."
+	}
+	return s
+}
+
+func (g *gen) expr(depth int) string {
+	if depth <= 0 {
+		if g.chance(0.6) {
+			return g.ident()
+		}
+		return g.lit()
+	}
+	d := depth - 1
+	switch g.r.Intn(22) {
+	case 0, 1:
+		return g.ident()
+	case 2:
+		return g.lit()
+	case 3, 4:
+		return g.expr(d) + " " + g.pick(binOps...) + " " + g.expr(d)
+	case 5, 6, 7:
+		return g.pick(funcNames...) + "(" + g.args(d, 3) + ")"
+	case 8:
+		return g.pick(pkgNames...) + "." + g.pick(selNames...) + "(" + g.args(d, 3) + ")"
+	case 9:
+		return g.ident() + "." + g.pick(selNames...)
+	case 10:
+		return g.ident() + "[" + g.expr(d) + "]"
+	case 11:
+		return g.ident() + "[" + g.expr(0) + ":" + g.expr(0) + "]"
+	case 12:
+		return g.pick("-", "!", "&", "*", "<-", "^") + g.ident()
+	case 13:
+		return "(" + g.expr(d) + ")"
+	case 14:
+		return g.pick("T", "pkg.T", "[]int", "map[string]int") + "{" + g.elts(d) + "}"
+	case 15:
+		return "func(" + g.ident() + " " + g.typ(1) + ") " + g.typ(0) + " { return " + g.expr(d) + " }"
+	case 16:
+		return g.ident() + ".(" + g.typ(1) + ")"
+	case 17:
+		return g.expr(d) + "." + g.pick(selNames...) + "(" + g.args(d, 2) + ")"
+	case 18:
+		return g.typ(1) + "(" + g.expr(d) + ")"
+	case 19:
+		return "G[" + g.typ(0) + "](" + g.args(d, 2) + ")"
+	case 20:
+		return "&" + g.pick("T", "pkg.T") + "{" + g.elts(d) + "}"
+	default:
+		return g.pick(funcNames...) + "(" + g.args(d, 4) + ")"
+	}
+}
+
+func (g *gen) elts(depth int) string {
+	n := g.r.Intn(4)
+	var xs []string
+	kv := g.chance(0.4)
+	for i := 0; i < n; i++ {
+		if kv {
+			xs = append(xs, g.pick("A", "B", "C", `"k"`)+": "+g.expr(depth))
+		} else {
+			xs = append(xs, g.expr(depth))
+		}
+	}
+	return strings.Join(xs, ", ")
+}
+
+func indent(s, pre string) string {
+	lines := strings.Split(strings.TrimRight(s, "\n"), "\n")
+	for i := range lines {
+		if lines[i] != "" {
+			lines[i] = pre + lines[i]
+		}
+	}
+	return strings.Join(lines, "\n") + "\n"
+}
+
+func (g *gen) block(depth, max int) string {
+	n := g.r.Intn(max + 1)
+	var sb strings.Builder
+	for i := 0; i < n; i++ {
+		sb.WriteString(g.stmt(depth))
+	}
+	return sb.String()
+}
+
+// stmt returns one statement, newline-terminated, possibly spanning lines.
+func (g *gen) stmt(depth int) string {
+	d := depth - 1
+	if depth <= 0 {
+		switch g.r.Intn(6) {
+		case 0:
+			return g.ident() + " := " + g.expr(1) + "\n"
+		case 1:
+			return g.ident() + " = " + g.expr(1) + "\n"
+		case 2:
+			return g.pick(funcNames...) + "(" + g.args(1, 3) + ")\n"
+		case 3:
+			return "return " + g.expr(1) + "\n"
+		case 4:
+			return g.ident() + g.pick("++", "--") + "\n"
+		default:
+			return g.pick(pkgNames...) + "." + g.pick(selNames...) + "(" + g.args(1, 2) + ")\n"
+		}
+	}
+	switch g.r.Intn(26) {
+	case 0, 1:
+		return g.ident() + " := " + g.expr(2) + "\n"
+	case 2:
+		return g.ident() + ", " + g.ident() + " := " + g.expr(1) + ", " + g.expr(1) + "\n"
+	case 3:
+		return g.ident() + " " + g.pick("=", "+=", "-=", "|=") + " " + g.expr(2) + "\n"
+	case 4, 5:
+		return g.pick(funcNames...) + "(" + g.args(2, 3) + ")\n"
+	case 6:
+		s := "if " + g.expr(1) + " {\n" + indent(g.block(d, 2), "\t") + "}"
+		if g.chance(0.4) {
+			s += " else {\n" + indent(g.block(d, 2), "\t") + "}"
+		}
+		return s + "\n"
+	case 7:
+		return "if " + g.ident() + " := " + g.expr(1) + "; " + g.ident() + " != nil {\n" + indent(g.block(d, 2), "\t") + "}\n"
+	case 8:
+		return "for i := 0; i < " + g.expr(0) + "; i++ {\n" + indent(g.block(d, 2), "\t") + "}\n"
+	case 9:
+		return "for " + g.expr(1) + " {\n" + indent(g.block(d, 2), "\t") + "}\n"
+	case 10:
+		return "for {\n" + indent(g.block(d, 2)+g.pick("break\n", "continue\n", ""), "\t") + "}\n"
+	case 11:
+		return "for " + g.pick("k, v", "_, v", "k", "i") + " := range " + g.expr(1) + " {\n" + indent(g.block(d, 2), "\t") + "}\n"
+	case 12:
+		return "for range " + g.ident() + " {\n" + indent(g.block(d, 1), "\t") + "}\n"
+	case 13:
+		s := "switch " + g.pick(g.ident(), "", "x := "+g.expr(1)+"; x") + " {\n"
+		for i, n := 0, 1+g.r.Intn(2); i < n; i++ {
+			s += "case " + g.expr(1) + ":\n" + indent(g.block(d, 2), "\t")
+		}
+		if g.chance(0.5) {
+			s += "default:\n" + indent(g.block(d, 1), "\t")
+		}
+		return s + "}\n"
+	case 14:
+		s := "select {\n"
+		s += "case " + g.pick("v := <-ch", "<-done", "ch <- "+g.expr(0)) + ":\n" + indent(g.block(d, 2), "\t")
+		if g.chance(0.5) {
+			s += "default:\n" + indent(g.block(d, 1), "\t")
+		}
+		return s + "}\n"
+	case 15:
+		return "return " + g.args(1, 2) + "\n"
+	case 16:
+		return g.pick("defer ", "go ") + g.pick(funcNames...) + "(" + g.args(1, 2) + ")\n"
+	case 17:
+		return g.pick("defer ", "go ") + "func() {\n" + indent(g.block(d, 2), "\t") + "}()\n"
+	case 18:
+		return g.ident() + g.pick("++", "--") + "\n"
+	case 19:
+		return "{\n" + indent(g.block(d, 2), "\t") + "}\n"
+	case 20:
+		return "var " + g.ident() + " " + g.typ(1) + g.pick("", " = "+g.expr(1)) + "\n"
+	case 21:
+		return g.pick("const c = 1\n", "type L struct{ X int }\n", "var (\n\tp = 1\n\tq = 2\n)\n", "type A = int\n")
+	case 22:
+		return "ch <- " + g.expr(1) + "\n"
+	case 23:
+		return "L" + fmt.Sprint(g.r.Intn(3)) + ":\n\tfor {\n\t\t" + g.pick("break", "continue") + " L0\n\t}\n"
+	case 24:
+		return "switch v := " + g.ident() + ".(type) {\ncase int:\n\t_ = v\ncase " + g.typ(1) + ":\n" + indent(g.block(d, 1), "\t") + "}\n"
+	default:
+		return g.pick(pkgNames...) + "." + g.pick(selNames...) + "(" + g.args(2, 3) + ")\n"
+	}
+}
+
+func (g *gen) params(max int, named bool) string {
+	n := g.r.Intn(max + 1)
+	var xs []string
+	for i := 0; i < n; i++ {
+		t := g.typ(1)
+		if i == n-1 && g.chance(0.15) {
+			t = "..." + g.pick(typeNames...)
+		}
+		if named {
+			xs = append(xs, fmt.Sprintf("p%d %s", i, t))
+		} else {
+			xs = append(xs, t)
+		}
+	}
+	return strings.Join(xs, ", ")
+}
+
+func (g *gen) funcDecl(name string, bodyDepth int) string {
+	s := "func "
+	if g.chance(0.3) {
+		s += "(" + g.pick("r *T", "r T", "T", "r *G[K]") + ") "
+	}
+	s += name
+	if g.chance(0.12) {
+		s += "[K any, V comparable]"
+	}
+	s += "(" + g.params(3, true) + ")"
+	switch g.r.Intn(4) {
+	case 0:
+		s += " " + g.typ(1)
+	case 1:
+		s += " (" + g.params(2, false) + ")"
+	case 2:
+		s += " (res int, err error)"
+	}
+	s += " {\n" + indent(g.block(bodyDepth, 4), "\t") + "}\n"
+	return s
+}
+
+func (g *gen) genDecl() string {
+	switch g.r.Intn(9) {
+	case 0:
+		return "type " + g.pick("A", "B", "Conf") + " struct {\n\tName string `json:\"name\"`\n\t" + g.pick("Age int\n\t", "") + "T\n\t*pkg.Base\n\tX, Y " + g.typ(1) + "\n}\n"
+	case 1:
+		return "type " + g.pick("I", "J") + " interface {\n\tM(x int) string\n\t" + g.pick("N()\n\t", "") + "fmt.Stringer\n}\n"
+	case 2:
+		return "type " + g.pick("A", "B") + " = " + g.typ(1) + "\n"
+	case 3:
+		return "type " + g.pick("A", "B") + " " + g.typ(2) + "\n"
+	case 4:
+		return "var " + g.ident() + " = " + g.expr(2) + "\n"
+	case 5:
+		return "var " + g.ident() + ", " + g.ident() + " " + g.typ(1) + "\n"
+	case 6:
+		return "const (\n\tC0 = iota\n\tC1\n\tC2 = " + g.expr(1) + "\n)\n"
+	case 7:
+		return "var (\n\tu " + g.typ(1) + "\n\tv = " + g.expr(1) + "\n)\n"
+	default:
+		return "const " + g.pick("K", "M") + " = " + g.lit() + "\n"
+	}
+}
+
+// ---------------------------------------------------------------------------
+// Fragments, holes and patterns
+
+type fragKind int
+
+const (
+	kExpr fragKind = iota
+	kStmts
+	kFuncDecl
+	kGenDecl
+)
+
+func (k fragKind) String() string { return [...]string{"expr", "stmts", "funcdecl", "gendecl"}[k] }
+
+// wrap turns a fragment into a parseable file and returns the offset at which
+// the fragment starts.
+func wrapFrag(k fragKind, frag string) (string, int) {
+	switch k {
+	case kExpr:
+		pre := "package p\n\nvar _ = "
+		return pre + frag + "\n", len(pre)
+	case kStmts:
+		pre := "package p\n\nfunc _() {\n"
+		return pre + frag + "}\n", len(pre)
+	default:
+		pre := "package p\n\n"
+		return pre + frag, len(pre)
+	}
+}
+
+type holeKind int
+
+const (
+	hExpr  holeKind = iota // an expression replaced by an expression metavariable
+	hIdent                 // an identifier replaced by an identifier metavariable
+	hDots                  // a run of list elements replaced by "..."
+)
+
+type hole struct {
+	kind       holeKind
+	start, end int    // byte range in the fragment
+	text       string // original text
+	list       string // for hDots: "args", "elts", "fields", "stmts", "forhdr"
+	sep        string // separator to use when filling a dots run
+	name       string // metavariable name (assigned later)
+}
+
+// findHoles parses the fragment and lists the places that can be abstracted.
+func findHoles(k fragKind, frag string) ([]hole, bool) {
+	src, off := wrapFrag(k, frag)
+	fset := token.NewFileSet()
+	f, err := parser.ParseFile(fset, "frag.go", src, parser.SkipObjectResolution)
+	if err != nil {
+		return nil, false
+	}
+	tf := fset.File(f.Pos())
+	rng := func(n ast.Node) (int, int) { return tf.Offset(n.Pos()) - off, tf.Offset(n.End()) - off }
+	var holes []hole
+	addRun := func(list string, sep string, nodes []ast.Node, lo, hi int) {
+		// every run [i,j) of the list, including empty runs, is a candidate;
+		// lo/hi is the byte range of the inside of the list.
+		for i := 0; i <= len(nodes); i++ {
+			for j := i; j <= len(nodes) && j <= i+3; j++ {
+				if i == j {
+					continue // empty runs are produced by inserting, handled at pick time
+				}
+				s, _ := rng(nodes[i])
+				_, e := rng(nodes[j-1])
+				if s < 0 || e > len(frag) {
+					continue
+				}
+				holes = append(holes, hole{kind: hDots, start: s, end: e, text: frag[s:e], list: list, sep: sep})
+			}
+		}
+		_ = lo
+		_ = hi
+	}
+	var root ast.Node
+	ast.Inspect(f, func(n ast.Node) bool {
+		if n == nil {
+			return false
+		}
+		s, e := rng(n)
+		inside := s >= 0 && e <= len(frag) && s < e
+		if inside && root == nil {
+			root = n
+		}
+		switch x := n.(type) {
+		case *ast.CallExpr:
+			if inside && len(x.Args) > 0 && !x.Ellipsis.IsValid() {
+				var ns []ast.Node
+				for _, a := range x.Args {
+					ns = append(ns, a)
+				}
+				addRun("args", ", ", ns, 0, 0)
+			}
+		case *ast.CompositeLit:
+			if inside && len(x.Elts) > 0 {
+				var ns []ast.Node
+				for _, a := range x.Elts {
+					ns = append(ns, a)
+				}
+				addRun("elts", ", ", ns, 0, 0)
+			}
+		case *ast.FieldList:
+			if inside && len(x.List) > 0 && x.Opening.IsValid() {
+				var ns []ast.Node
+				for _, a := range x.List {
+					ns = append(ns, a)
+				}
+				sep := ", "
+				if src[tf.Offset(x.Opening)] == '{' {
+					sep = "\n"
+				}
+				if src[tf.Offset(x.Opening)] != '[' {
+					addRun("fields", sep, ns, 0, 0)
+				}
+			}
+		case *ast.BlockStmt:
+			if inside && len(x.List) > 0 {
+				var ns []ast.Node
+				for _, a := range x.List {
+					ns = append(ns, a)
+				}
+				addRun("stmts", "\n", ns, 0, 0)
+			}
+		case *ast.ForStmt:
+			if inside {
+				hs := tf.Offset(x.For) - off + len("for ")
+				he := tf.Offset(x.Body.Lbrace) - off - 1
+				if he > hs {
+					holes = append(holes, hole{kind: hDots, start: hs, end: he, text: frag[hs:he], list: "forhdr"})
+				}
+			}
+		case *ast.RangeStmt:
+			if inside {
+				hs := tf.Offset(x.For) - off + len("for ")
+				he := tf.Offset(x.Body.Lbrace) - off - 1
+				if he > hs {
+					holes = append(holes, hole{kind: hDots, start: hs, end: he, text: frag[hs:he], list: "forhdr"})
+				}
+			}
+		case *ast.Ident:
+			if inside && x.Name != "_" {
+				holes = append(holes, hole{kind: hIdent, start: s, end: e, text: frag[s:e]})
+			}
+		}
+		if ex, ok := n.(ast.Expr); ok && inside {
+			switch ex.(type) {
+			case *ast.KeyValueExpr, *ast.Ellipsis:
+			default:
+				if !(s == 0 && e == len(strings.TrimRight(frag, "\n"))) {
+					holes = append(holes, hole{kind: hExpr, start: s, end: e, text: frag[s:e]})
+				}
+			}
+		}
+		return true
+	})
+	return holes, true
+}
+
+// pickHoles selects a non-overlapping subset.
+func (g *gen) pickHoles(all []hole, max int) []hole {
+	g.r.Shuffle(len(all), func(i, j int) { all[i], all[j] = all[j], all[i] })
+	var chosen []hole
+	want := g.r.Intn(max + 1)
+	for _, h := range all {
+		if len(chosen) >= want {
+			break
+		}
+		// bias: identifiers are numerous, take them less often
+		if h.kind == hIdent && g.chance(0.6) {
+			continue
+		}
+		ok := true
+		for _, c := range chosen {
+			if h.start < c.end && c.start < h.end {
+				ok = false
+				break
+			}
+		}
+		if ok {
+			chosen = append(chosen, h)
+		}
+	}
+	sort.Slice(chosen, func(i, j int) bool { return chosen[i].start < chosen[j].start })
+	return chosen
+}
+
+const emptyRun = "\x00EMPTY"
+
+func (g *gen) shareProb() float64 {
+	switch g.mode {
+	case "c01", "c04":
+		return 0
+	case "c02":
+		return 0.95
+	}
+	return 0.8
+}
+
+func overlaps(h hole, chosen []hole) bool {
+	for _, c := range chosen {
+		if h.start < c.end && c.start < h.end {
+			return true
+		}
+	}
+	return false
+}
+
+// pickHolesMode selects holes according to the generator mode.
+func (g *gen) pickHolesMode(all []hole) []hole {
+	var chosen []hole
+	switch g.mode {
+	case "c02":
+		// prefer a text that occurs several times: all its occurrences
+		// become the same metavariable
+		count := map[string][]hole{}
+		for _, h := range all {
+			if h.kind != hDots {
+				k := fmt.Sprint(h.kind) + h.text
+				if !overlaps(h, count[k]) {
+					count[k] = append(count[k], h)
+				}
+			}
+		}
+		var keys []string
+		for k, v := range count {
+			if len(v) >= 2 {
+				keys = append(keys, k)
+			}
+		}
+		sort.Strings(keys)
+		if len(keys) > 0 {
+			chosen = append(chosen, count[keys[g.r.Intn(len(keys))]]...)
+		}
+	case "c04":
+		var dots []hole
+		for _, h := range all {
+			if h.kind == hDots {
+				dots = append(dots, h)
+			}
+		}
+		g.r.Shuffle(len(dots), func(i, j int) { dots[i], dots[j] = dots[j], dots[i] })
+		want := 1 + g.r.Intn(3)
+		for _, h := range dots {
+			if len(chosen) >= want {
+				break
+			}
+			if !overlaps(h, chosen) {
+				chosen = append(chosen, h)
+			}
+		}
+	}
+	for _, h := range g.pickHoles(all, 3) {
+		if !overlaps(h, chosen) {
+			chosen = append(chosen, h)
+		}
+	}
+	sort.Slice(chosen, func(i, j int) bool { return chosen[i].start < chosen[j].start })
+	return chosen
+}
+
+// fill replaces the holes of frag by the given texts. The text emptyRun for a
+// dots hole removes the run together with one adjacent separator.
+func fill(frag string, holes []hole, texts []string) string {
+	var sb strings.Builder
+	pos := 0
+	for i, h := range holes {
+		sb.WriteString(frag[pos:h.start])
+		pos = h.end
+		if texts[i] == emptyRun {
+			if h.sep != "" && strings.HasPrefix(frag[pos:], h.sep) {
+				pos += len(h.sep)
+			} else if h.sep != "" && strings.HasSuffix(sb.String(), h.sep) {
+				t := sb.String()
+				sb.Reset()
+				sb.WriteString(t[:len(t)-len(h.sep)])
+			} else if h.sep == "\n" {
+				// a statement / field run that is alone in its block
+				t := strings.TrimRight(sb.String(), "\t ")
+				sb.Reset()
+				sb.WriteString(t)
+				pos += len(frag[pos:]) - len(strings.TrimLeft(frag[pos:], "\t "))
+				if strings.HasPrefix(frag[pos:], "\n") && strings.HasSuffix(t, "\n") {
+					pos++
+				}
+			}
+			continue
+		}
+		sb.WriteString(texts[i])
+	}
+	sb.WriteString(frag[pos:])
+	return sb.String()
+}
+
+func (g *gen) runFor(h hole) string {
+	n := g.r.Intn(4)
+	var xs []string
+	for i := 0; i < n; i++ {
+		switch h.list {
+		case "args":
+			xs = append(xs, g.expr(1))
+		case "elts":
+			if strings.Contains(h.text, ": ") {
+				xs = append(xs, g.pick("A", "B", "D", `"z"`)+": "+g.expr(1))
+			} else {
+				xs = append(xs, g.expr(1))
+			}
+		case "fields":
+			if h.sep == "\n" {
+				xs = append(xs, fmt.Sprintf("F%d %s", g.r.Intn(9), g.typ(1)))
+			} else if strings.Contains(h.text, " ") {
+				xs = append(xs, fmt.Sprintf("q%d %s", g.r.Intn(9), g.typ(1)))
+			} else {
+				xs = append(xs, g.typ(1))
+			}
+		case "stmts":
+			xs = append(xs, strings.TrimRight(g.stmt(1), "\n"))
+		}
+	}
+	if h.list == "forhdr" {
+		return g.pick("i := 0; i < 10; i++", "_, x := range xs", "cond()", "k := range m", "; n > 0; n--", "range ch")
+	}
+	if n == 0 {
+		if g.chance(0.5) {
+			return emptyRun
+		}
+		return h.text
+	}
+	if h.sep == "\n" {
+		// keep the indentation of the first line of the run
+		ind := ""
+		return strings.Join(xs, h.sep+ind)
+	}
+	return strings.Join(xs, h.sep)
+}
+
+// tokenMutate changes one token of s outside the protected ranges.
+func (g *gen) tokenMutate(s string, protect []hole) (string, bool) {
+	fset := token.NewFileSet()
+	tf := fset.AddFile("m.go", -1, len(s))
+	var sc scanner.Scanner
+	sc.Init(tf, []byte(s), nil, 0)
+	type tk struct {
+		off int
+		tok token.Token
+		lit string
+	}
+	var toks []tk
+	for {
+		p, t, l := sc.Scan()
+		if t == token.EOF {
+			break
+		}
+		o := tf.Offset(p)
+		prot := false
+		for _, h := range protect {
+			if o >= h.start && o < h.end {
+				prot = true
+			}
+		}
+		if prot || (t == token.SEMICOLON && l == "\n") {
+			continue
+		}
+		toks = append(toks, tk{o, t, l})
+	}
+	if len(toks) == 0 {
+		return s, false
+	}
+	for try := 0; try < 10; try++ {
+		t := toks[g.r.Intn(len(toks))]
+		var repl string
+		old := t.lit
+		if old == "" {
+			old = t.tok.String()
+		}
+		switch {
+		case t.tok == token.IDENT:
+			repl = old + "Z"
+			if g.chance(0.5) {
+				repl = g.pick("zz", "other", "foo", "a")
+			}
+		case t.tok == token.INT:
+			repl = old + "7"
+		case t.tok == token.STRING:
+			repl = `"mut"`
+		case t.tok == token.ADD, t.tok == token.SUB, t.tok == token.MUL, t.tok == token.QUO:
+			repl = g.pick("+", "-", "*", "/")
+		case t.tok == token.EQL, t.tok == token.NEQ, t.tok == token.LSS, t.tok == token.GTR:
+			repl = g.pick("==", "!=", "<", ">")
+		case t.tok == token.LAND, t.tok == token.LOR:
+			repl = g.pick("&&", "||")
+		case t.tok == token.DEFINE:
+			repl = "="
+		case t.tok == token.INC:
+			repl = "--"
+		case t.tok == token.DEC:
+			repl = "++"
+		case t.tok == token.DEFER:
+			repl = "go"
+		case t.tok == token.GO:
+			repl = "defer"
+		case t.tok == token.BREAK:
+			repl = "continue"
+		case t.tok == token.CONTINUE:
+			repl = "break"
+		case t.tok == token.ARROW:
+			continue
+		default:
+			continue
+		}
+		if repl == old {
+			continue
+		}
+		return s[:t.off] + repl + s[t.off+len(old):], true
+	}
+	return s, false
+}
+
+// lineDiff renders minus/plus texts as a unified-diff style patch body.
+func lineDiff(minus, plus string) string {
+	a := strings.Split(strings.TrimRight(minus, "\n"), "\n")
+	b := strings.Split(strings.TrimRight(plus, "\n"), "\n")
+	// LCS table
+	n, m := len(a), len(b)
+	lcs := make([][]int, n+1)
+	for i := range lcs {
+		lcs[i] = make([]int, m+1)
+	}
+	for i := n - 1; i >= 0; i-- {
+		for j := m - 1; j >= 0; j-- {
+			if a[i] == b[j] {
+				lcs[i][j] = lcs[i+1][j+1] + 1
+			} else if lcs[i+1][j] >= lcs[i][j+1] {
+				lcs[i][j] = lcs[i+1][j]
+			} else {
+				lcs[i][j] = lcs[i][j+1]
+			}
+		}
+	}
+	var sb strings.Builder
+	i, j := 0, 0
+	for i < n || j < m {
+		switch {
+		case i < n && j < m && a[i] == b[j]:
+			sb.WriteString(" " + a[i] + "\n")
+			i++
+			j++
+		case i < n && (j >= m || lcs[i+1][j] >= lcs[i][j+1]):
+			sb.WriteString("-" + a[i] + "\n")
+			i++
+		default:
+			sb.WriteString("+" + b[j] + "\n")
+			j++
+		}
+	}
+	return sb.String()
+}
+
+type pattern struct {
+	kind  fragKind
+	frag  string
+	holes []hole
+	minus string
+	plus  string
+	meta  string
+}
+
+var identRe = func(s string) bool {
+	if s == "" {
+		return false
+	}
+	for i, c := range s {
+		if !(c == '_' || c >= 'a' && c <= 'z' || c >= 'A' && c <= 'Z' || i > 0 && c >= '0' && c <= '9') {
+			return false
+		}
+	}
+	return true
+}
+
+// derivePlus rewrites the minus text into a plus text.
+func (g *gen) derivePlus(p *pattern) string {
+	minus := p.minus
+	var mvs []string
+	for _, h := range p.holes {
+		if h.kind != hDots {
+			mvs = append(mvs, h.name)
+		}
+	}
+	renameTok := func(s string) string {
+		// rename the first plain identifier that is not a metavariable or keyword
+		fset := token.NewFileSet()
+		tf := fset.AddFile("m.go", -1, len(s))
+		var sc scanner.Scanner
+		sc.Init(tf, []byte(s), nil, 0)
+		var cands [][2]int
+		for {
+			pos, t, l := sc.Scan()
+			if t == token.EOF {
+				break
+			}
+			if t == token.IDENT && !strings.HasPrefix(l, "mv") && !strings.HasPrefix(l, "id") && l != "_" {
+				cands = append(cands, [2]int{tf.Offset(pos), len(l)})
+			}
+		}
+		if len(cands) == 0 {
+			return s
+		}
+		c := cands[g.r.Intn(len(cands))]
+		return s[:c[0]] + s[c[0]:c[0]+c[1]] + "New" + s[c[0]+c[1]:]
+	}
+	switch p.kind {
+	case kExpr:
+		switch g.r.Intn(8) {
+		case 0:
+			return "wrap(" + strings.TrimRight(minus, "\n") + ")\n"
+		case 1:
+			if len(mvs) > 0 {
+				x := mvs[g.r.Intn(len(mvs))]
+				y := mvs[g.r.Intn(len(mvs))]
+				return g.pick("newCall("+x+", "+y+")", x+" + "+y, "T2{"+x+"}", "pkg.Fn("+x+")", x+".Method("+y+")", "&"+x, x) + "\n"
+			}
+			return "replaced(1)\n"
+		case 2:
+			if len(mvs) >= 2 {
+				// swap two metavariables
+				x, y := mvs[0], mvs[1]
+				s := strings.ReplaceAll(minus, x, "\x00")
+				s = strings.ReplaceAll(s, y, x)
+				return strings.ReplaceAll(s, "\x00", y)
+			}
+			return renameTok(minus)
+		case 3:
+			if len(mvs) > 0 {
+				x := mvs[g.r.Intn(len(mvs))]
+				return strings.Replace(minus, x, "dup("+x+", "+x+")", 1)
+			}
+			return renameTok(minus)
+		case 4:
+			if len(mvs) > 0 {
+				x := mvs[g.r.Intn(len(mvs))]
+				return strings.Replace(minus, x, "0", 1)
+			}
+			return renameTok(minus)
+		default:
+			return renameTok(minus)
+		}
+	case kStmts:
+		lines := strings.Split(strings.TrimRight(minus, "\n"), "\n")
+		switch g.r.Intn(6) {
+		case 0:
+			k := g.r.Intn(len(lines) + 1)
+			extra := "added(" + strings.Join(mvs, ", ") + ")"
+			lines = append(lines[:k], append([]string{extra}, lines[k:]...)...)
+			return strings.Join(lines, "\n") + "\n"
+		case 1:
+			if len(lines) > 1 {
+				// delete a simple (single-line) statement line
+				for try := 0; try < 5; try++ {
+					k := g.r.Intn(len(lines))
+					l := strings.TrimSpace(lines[k])
+					if l != "..." && !strings.ContainsAny(l, "{}") && !strings.HasSuffix(l, ":") {
+						lines = append(lines[:k], lines[k+1:]...)
+						return strings.Join(lines, "\n") + "\n"
+					}
+				}
+			}
+			return renameTok(minus)
+		default:
+			return renameTok(minus)
+		}
+	default:
+		return renameTok(minus)
+	}
+}
+
+// makePattern builds a random pattern together with its source fragment.
+func (g *gen) makePattern() (*pattern, bool) {
+	k := fragKind(g.r.Intn(4))
+	if g.chance(0.25) {
+		k = kExpr
+	}
+	var frag string
+	switch k {
+	case kExpr:
+		frag = g.expr(2 + g.r.Intn(2))
+		if g.mode == "c02" {
+			e := g.expr(1)
+			if strings.Contains(e, " ") {
+				e = "(" + e + ")"
+			}
+			frag = g.pick("foo("+e+", "+e+")", e+" == "+e, "g("+e+", h("+e+"))", "T{A: "+e+", B: "+e+"}",
+				e+".Do("+e+")", "bar("+e+", 1, "+e+")", "f(func() int { return "+e+" }, "+e+")")
+		}
+		if identRe(frag) {
+			frag = g.pick(funcNames...) + "(" + g.args(2, 3) + ")"
+		}
+		frag += "\n"
+	case kStmts:
+		n := 1 + g.r.Intn(3)
+		for i := 0; i < n; i++ {
+			frag += g.stmt(1 + g.r.Intn(2))
+		}
+		if g.mode == "c02" {
+			v := g.ident()
+			frag = v + " := " + g.expr(1) + "\n" + frag + "use(" + v + ")\n"
+		}
+	case kFuncDecl:
+		frag = g.funcDecl(g.pick(funcNames...), 1)
+	case kGenDecl:
+		frag = g.genDecl()
+	}
+	all, ok := findHoles(k, frag)
+	if !ok {
+		return nil, false
+	}
+	holes := g.pickHolesMode(all)
+	p := &pattern{kind: k, frag: frag, holes: holes}
+	// name metavariables; identical texts share a name most of the time
+	byText := map[string]string{}
+	nExpr, nIdent := 0, 0
+	var exprNames, identNames []string
+	texts := make([]string, len(holes))
+	for i := range holes {
+		h := &holes[i]
+		switch h.kind {
+		case hDots:
+			texts[i] = "..."
+		case hExpr, hIdent:
+			key := fmt.Sprint(h.kind) + h.text
+			if n, ok := byText[key]; ok && g.chance(g.shareProb()) {
+				h.name = n
+			} else if h.kind == hExpr {
+				nExpr++
+				h.name = fmt.Sprintf("mv%d", nExpr)
+				exprNames = append(exprNames, h.name)
+			} else {
+				nIdent++
+				h.name = fmt.Sprintf("id%d", nIdent)
+				identNames = append(identNames, h.name)
+			}
+			byText[key] = h.name
+			texts[i] = h.name
+		}
+	}
+	p.minus = fill(frag, holes, texts)
+	if len(exprNames) > 0 {
+		p.meta += "var " + strings.Join(exprNames, ", ") + " expression\n"
+	}
+	if len(identNames) > 0 {
+		p.meta += "var " + strings.Join(identNames, ", ") + " identifier\n"
+	}
+	p.plus = g.derivePlus(p)
+	return p, true
+}
+
+// instance fills the pattern's holes with fresh code. With probability
+// pInconsistent a repeated metavariable gets different fillers (a near-miss).
+func (g *gen) instance(p *pattern, pInconsistent float64) string {
+	bind := map[string]string{}
+	texts := make([]string, len(p.holes))
+	for i, h := range p.holes {
+		switch h.kind {
+		case hDots:
+			texts[i] = g.runFor(h)
+		case hExpr:
+			if t, ok := bind[h.name]; ok && !g.chance(pInconsistent) {
+				texts[i] = t
+			} else {
+				t := h.text
+				if g.chance(0.7) {
+					t = g.expr(g.r.Intn(3))
+					if g.chance(0.3) {
+						t = "(" + t + ")"
+					}
+				}
+				// keep precedence safe
+				if strings.ContainsAny(t, " ") && !strings.HasPrefix(t, "(") && !strings.HasPrefix(t, "func") {
+					t = "(" + t + ")"
+				}
+				if _, ok := bind[h.name]; !ok {
+					bind[h.name] = t
+				}
+				texts[i] = t
+			}
+		case hIdent:
+			if t, ok := bind[h.name]; ok && !g.chance(pInconsistent) {
+				texts[i] = t
+			} else {
+				t := h.text
+				if g.chance(0.5) {
+					t = g.pick("alpha", "beta", "gamma", "a", "foo")
+				}
+				if _, ok := bind[h.name]; !ok {
+					bind[h.name] = t
+				}
+				texts[i] = t
+			}
+		}
+	}
+	return fill(p.frag, p.holes, texts)
+}
+
+// embed places fragments into a file.
+func (g *gen) fileWith(p *pattern, frags []string) string {
+	var sb strings.Builder
+	sb.WriteString("package " + g.pick("p", "main", "x") + "\n\n")
+	if g.chance(0.5) {
+		sb.WriteString("import (\n\t\"fmt\"\n\t\"os\"\n)\n\n")
+	}
+	nf := 0
+	fn := func(body string) {
+		nf++
+		sb.WriteString(fmt.Sprintf("func fn%d() {\n%s}\n\n", nf, indent(body, "\t")))
+	}
+	for _, fr := range frags {
+		fr = strings.TrimRight(fr, "\n")
+		switch p.kind {
+		case kExpr:
+			var body string
+			body += g.block(1, 2)
+			switch g.r.Intn(8) {
+			case 0:
+				body += "_ = " + fr + "\n"
+			case 1:
+				body += "use(" + fr + ", 1)\n"
+			case 2:
+				body += "if check(" + fr + ") {\n\treturn\n}\n"
+			case 3:
+				body += "go func() {\n\tx := []any{" + fr + "}\n\t_ = x\n}()\n"
+			case 4:
+				body += "for i := range items(" + fr + ") {\n\t_ = i\n}\n"
+			case 5:
+				body += "switch {\ncase cond:\n\tuse(" + fr + ")\n}\n"
+			case 6:
+				sb.WriteString("var top" + fmt.Sprint(nf) + " = " + fr + "\n\n")
+				continue
+			default:
+				body += "return " + fr + "\n"
+			}
+			fn(body)
+		case kStmts:
+			pre := g.block(1, 2)
+			post := g.block(1, 2)
+			switch g.r.Intn(5) {
+			case 0:
+				fn(pre + fr + "\n" + post)
+			case 1:
+				fn("if cond {\n" + indent(pre+fr+"\n"+post, "\t") + "}\n")
+			case 2:
+				fn("switch x {\ncase 1:\n" + indent(pre+fr+"\n"+post, "\t") + "}\n")
+			case 3:
+				fn("go func() {\n" + indent(pre+fr+"\n"+post, "\t") + "}()\n")
+			default:
+				fn(fr + "\n")
+			}
+		default:
+			if p.kind == kGenDecl && g.chance(0.3) {
+				fn(fr + "\n")
+			} else {
+				sb.WriteString(fr + "\n\n")
+			}
+		}
+		if g.chance(0.3) {
+			sb.WriteString(g.funcDecl(fmt.Sprintf("other%d", nf), 2) + "\n")
+		}
+	}
+	if g.chance(0.5) {
+		sb.WriteString(g.genDecl() + "\n")
+	}
+	return sb.String()
+}
+
+func parses(src string) bool {
+	_, err := parser.ParseFile(token.NewFileSet(), "x.go", src, parser.SkipObjectResolution)
+	return err == nil
+}
+
+// genEngineCases produces n (patch, file) cases.
+func genEngineCases(seed int64, n int, mode string) []Case {
+	g := &gen{r: rand.New(rand.NewSource(seed)), mode: mode}
+	var cases []Case
+	for tries := 0; len(cases) < n && tries < n*20; tries++ {
+		p, ok := g.makePattern()
+		if !ok {
+			continue
+		}
+		var frags []string
+		note := p.kind.String()
+		k := 1 + g.r.Intn(3)
+		if g.mode == "c05" || g.mode == "c03" {
+			k = 2 + g.r.Intn(4)
+		}
+		for i := 0; i < k; i++ {
+			sel := g.r.Intn(5)
+			if g.mode == "c02" && g.chance(0.5) {
+				sel = 2
+			}
+			if g.mode == "c01" && g.chance(0.4) {
+				sel = 1
+			}
+			switch sel {
+			case 0: // the fragment itself
+				frags = append(frags, p.frag)
+			case 1: // near miss: token mutation outside holes
+				inst, ok := g.tokenMutate(p.frag, p.holes)
+				if ok {
+					note += " nearmiss"
+				}
+				frags = append(frags, inst)
+			case 2: // inconsistent bindings
+				frags = append(frags, g.instance(p, 0.7))
+			default:
+				frags = append(frags, g.instance(p, 0))
+			}
+		}
+		src := g.fileWith(p, frags)
+		if !parses(src) {
+			continue
+		}
+		patch := "@@\n" + p.meta + "@@\n" + lineDiff(p.minus, p.plus)
+		cases = append(cases, Case{
+			ID:      fmt.Sprintf("gen/%d/%d", seed, len(cases)),
+			Patches: []string{patch},
+			Src:     src,
+			Note:    note,
+		})
+	}
+	return cases
+}
